@@ -1,6 +1,7 @@
 import RtcVerif.Model.C16
 import RtcVerif.Proofs.C16
 import RtcVerif.Proofs.C15
+import RtcVerif.Proofs.C15Fin
 import RtcVerif.Props.C15
 /-!
 # C16 — delayed feedback equals the delayed expression, history included
@@ -277,6 +278,35 @@ theorem yAt_same_grid (d : DelayProb) (k : Nat) (cv : ColVar) (hc : d.mp.cols[d.
     simp [List.getD_eq_getElem?_getD, hc]
   rw [this, map_value_same_grid cv d.ts k hg, applySign_eq_scale]
   rfl
+
+/-- the delayed value is always a number (the symbolic interpolant clamps; the kept knots are
+    NaN-free) -/
+theorem delayedAt_num (d : DelayProb) (k : Nat) (hm : d.outMode ≤ 2) (hne : d.outKnots ≠ []) :
+    ∃ v, d.delayedAt k = .num v :=
+  interpSym_finite d.outMode hm d.outKnots hne _
+
+/-- **Headline, hypotheses discharged**: for a receiving variable on the collocation grid, a
+    valid interpolation mode, a non-zero row scaling and at least one knot, the delay rows are all
+    zero iff `y(t_k) = Interp mode outKnots (t_k - tau_k)` at every collocation time stamp. -/
+theorem delay_rows_zero_iff_delayed (d : DelayProb) (cv : ColVar) (hn : d.nominal ≠ 0)
+    (hc : d.mp.cols[d.out]? = some cv) (hg : cv.sv.times.length = d.ts.length)
+    (hm : d.outMode ≤ 2) (hne : d.outKnots ≠ []) :
+    (∀ k, k < d.ts.length → d.rows.getD k .raise = .num 0) ↔
+    (∀ k, k < d.ts.length →
+      Res.num (sgn d.outNeg * cv.sv.results.getD k 0)
+        = ofOut (interpSym d.outMode d.outKnots (d.ts.getD k 0 - resRat (d.tauAt k)))) := by
+  have hnum : ∀ k, k < d.ts.length → ∃ y v, d.yAt k = .num y ∧ d.delayedAt k = .num v := by
+    intro k _
+    obtain ⟨v, hv⟩ := delayedAt_num d k hm hne
+    exact ⟨_, v, yAt_same_grid d k cv hc hg, hv⟩
+  rw [rows_all_zero_iff d hn hnum]
+  constructor
+  · intro h k hk
+    rw [← yAt_same_grid d k cv hc hg, ← delayedAt_spec]
+    exact h k hk
+  · intro h k hk
+    rw [yAt_same_grid d k cv hc hg, delayedAt_spec]
+    exact h k hk
 
 /-! ## Non-vacuity -/
 
